@@ -278,6 +278,10 @@ func (w *world) quiesce() bool {
 	return waitUntil(waitGuard, func() bool {
 		names := w.runningNames()
 		for _, in := range w.snapshotInsts() {
+			// a spawned goroutine (running flag set) must have entered its handler
+			if in.kind != "call" && !in.started.Load() && w.latest(in.name) == in && contains(names, strconv.Itoa(in.name)) {
+				return false
+			}
 			due := in.started.Load() && (in.kind == "x" || in.finReq.Load() || in.returned.Load() || in.seen.Load())
 			if !due {
 				continue
@@ -697,7 +701,7 @@ func main() {
 	for _, c := range corpus {
 		runCase(r, 0, c)
 	}
-	nSeq, nConc := 400*r.Scale, 500*r.Scale
+	nSeq, nConc := 2500*r.Scale, 3500*r.Scale
 	for i := 0; i < nSeq; i++ {
 		rng, sub := r.Rng.Fork()
 		runCase(r, sub, genSeq(rng))
